@@ -8,7 +8,7 @@ from pbt.util import arr, cmp, pretty, call, conv_fn
 
 ID = "C03"
 TITLE = "Jacobian, gradient and higher derivative functions are the true derivatives"
-RULE = ("Models and points as in C01 (general grammar, lambdify back-end). Oracle: exact first and second partial "
+RULE = ("Models and points as in C01 (general grammar, lambdify back-end; 1 model in 10 has 9-12 states). Oracle: exact first and second partial "
         "derivatives of the abstract model's right-hand side from second-order forward-mode jets (own code, "
         "self-tested against complex-step and central differences), laid out as jacobian[i,j], grad[i,k], "
         "diff_jacobian[i*nS+j,k]=d2f_i/dx_j dx_k, grad_jacobian[k*nS+i,j]=d2f_i/dtheta_k dx_j; tau-leap statistics "
@@ -33,7 +33,12 @@ DESIGN_REF = "DESIGN.md section 3 (C03)"
 def strategy(tier):
     @st.composite
     def case(draw):
-        m = draw(S.general_model(max_events=4))
+        if draw(st.integers(0, 9)) == 0:
+            # a larger model (9-12 states: two host groups plus vectors): index bookkeeping beyond single-digit sizes
+            m = draw(S.general_model(min_states=9, max_states=12, max_params=3, max_events=5, min_events=2, allow_range=False,
+                                     state_pool=S.STATE_POOL, allow_derived=False))
+        else:
+            m = draw(S.general_model(max_events=4))
         pts = [draw(S.point(m)) for _ in range(2)]
         return {"model": m, "points": pts, "conv": draw(st.sampled_from(["state-first", "state-first", "time-first"]))}
     return case()
@@ -77,12 +82,13 @@ def oracle(case, rec):
             cmp(arr(raw, shape, what, key, case), ref, what, key, case, *tol, terms=terms)
             used.append(raw)
 
-        ev("C03/jacobian", conv_fn(model, "jacobian", conv), (n_s, n_s), "jacobian(x,t)", d["J"], 1e-8, terms=d["mag1"], matrix=True)
-        ev("C03/grad", conv_fn(model, "grad", conv), (n_s, n_p), "grad(x,t)", d["G"], 1e-8, terms=d["mag1"], matrix=n_p > 0)
+        ev("C03/jacobian", conv_fn(model, "jacobian", conv), (n_s, n_s), "jacobian(x,t)", d["J"], 1e-8, terms=d["JM"], matrix=True)
+        ev("C03/grad", conv_fn(model, "grad", conv), (n_s, n_p), "grad(x,t)", d["G"], 1e-8, terms=d["GM"], matrix=n_p > 0)
         ev("C03/diff_jacobian", conv_fn(model, "diff_jacobian", conv), (n_s * n_s, n_s), "diff_jacobian(x,t)",
-           d["Hxx"].reshape(n_s * n_s, n_s), 1e-8, terms=d["mag2"], matrix=True)
+           d["Hxx"].reshape(n_s * n_s, n_s), 1e-8, terms=d["HxxM"].reshape(n_s * n_s, n_s), matrix=True)
         ref_gj = np.transpose(d["Hpx"], (1, 0, 2)).reshape(n_s * n_p, n_s)     # [k, i, j] -> row k*nS+i
-        ev("C03/grad_jacobian", model.grad_jacobian, (n_s * n_p, n_s), "grad_jacobian(x,t)", ref_gj, 1e-8, terms=d["mag2"], matrix=n_p > 0)
+        ev("C03/grad_jacobian", model.grad_jacobian, (n_s * n_p, n_s), "grad_jacobian(x,t)", ref_gj, 1e-8,
+           terms=np.transpose(d["HpxM"], (1, 0, 2)).reshape(n_s * n_p, n_s), matrix=n_p > 0)
         if n_e:
             F_ref = d["dadx"].dot(d["V"])                                       # F[i,j] = sum_k da_i/dx_k V[k,j]
             mu_ref = F_ref.dot(d["a"])
